@@ -265,6 +265,7 @@ package engine
 //@   requires typing: unquoteOK(imp.Path.Value)
 //@   requires typing: imp.Name != nil ==> rvSize(rvOf(boxed(imp.Name))) >= 0
 //@   assigns c.dots, elems(c.dots)
+//@   ensures c.dots.arr == old(c.dots.arr) || fresh(c.dots.arr)
 //@   ensures [C10,C11] named-by-a-metavariable-only-if-declared-as-identifier: m.NameIsMetavar == (imp.Name != nil && lookupVar(c.meta, imp.Name.Name) == const("github.com/uber-go/gopatch/internal/engine.IdentMetavarType"))
 //@   ensures [C10] the-name-as-written: (imp.Name == nil ==> m.Name == nil && m.NameS == "") && (imp.Name != nil ==> m.NameS == imp.Name.Name && m.Name != nil)
 //@   ensures [C10] the-path-as-written: m.Path == unquoted(imp.Path.Value)
@@ -273,6 +274,7 @@ package engine
 //@   requires imp != nil && imp.Path != nil
 //@   requires typing: unquoteOK(imp.Path.Value)
 //@   assigns c.dots, elems(c.dots)
+//@   ensures c.dots.arr == old(c.dots.arr) || fresh(c.dots.arr)
 //@   ensures [C11] named-by-a-metavariable-only-if-declared-as-identifier: m.NameIsMetavar == (imp.Name != nil && lookupVar(c.meta, imp.Name.Name) == const("github.com/uber-go/gopatch/internal/engine.IdentMetavarType"))
 //@   ensures [C11] the-name-as-written: (imp.Name == nil ==> m.Name == nil && m.NameS == "") && (imp.Name != nil ==> m.NameS == imp.Name.Name && m.Name != nil)
 //@   ensures [C11] the-path-as-written: m.Path == unquoted(imp.Path.Value) && m.Fset == c.fset
@@ -288,12 +290,14 @@ package engine
 //@   requires typing: compileEnvOK()
 //@   requires slist != nil
 //@   assigns c.dots, elems(c.dots)
+//@   ensures c.dots.arr == old(c.dots.arr) || fresh(c.dots.arr)
 //@   at call (*engine.matcherCompiler).compile assert [C01,C04] framed-by-an-elision-at-each-end: arg1 == rvOf(boxed(list)) && (len(slist.List) == 0 ==> len(list) == 0) && (len(slist.List) > 0 ==> len(list) == len(slist.List) + 2 && isDotsStmtAt(list[0], c.patchStart) && isDotsStmtAt(list[len(slist.List) + 1], c.patchEnd) && forall j int {list[j + 1]} :: 0 <= j && j < len(slist.List) ==> list[j + 1] == slist.List[j])
 //@   ensures [C01] m.typ == dyn("github.com/uber-go/gopatch/internal/engine.stmtSliceContainerMatcher") && unbox(m, "S_engine_stmtSliceContainerMatcher").Stmts != nil
 //@ func (c *replacerCompiler) compilePGoStmtList(slist) (m)
 //@   requires typing: compileEnvOK()
 //@   requires slist != nil
 //@   assigns c.dots, elems(c.dots)
+//@   ensures c.dots.arr == old(c.dots.arr) || fresh(c.dots.arr)
 //@   at call (*engine.replacerCompiler).compile assert [C03,C04] framed-by-an-elision-at-each-end: arg1 == rvOf(boxed(list)) && (len(slist.List) == 0 ==> len(list) == 0) && (len(slist.List) > 0 ==> len(list) == len(slist.List) + 2 && isDotsStmtAt(list[0], c.patchStart) && isDotsStmtAt(list[len(slist.List) + 1], c.patchEnd) && forall j int {list[j + 1]} :: 0 <= j && j < len(slist.List) ==> list[j + 1] == slist.List[j])
 //@   ensures [C03] m.typ == dyn("github.com/uber-go/gopatch/internal/engine.stmtSliceContainerReplacer") && unbox(m, "S_engine_stmtSliceContainerReplacer").Stmts != nil
 
@@ -970,27 +974,37 @@ package engine
 // error exactly when the compilation recorded one (C09, C19).
 //@ func Compile(fset, p) (prog, err)
 //@   requires p != nil
+//@   requires typing: compileEnvOK()
 //@   requires typing: forall k int {p.Changes[k]} :: 0 <= k && k < len(p.Changes) ==> wfParsedChange(as("*github.com/uber-go/gopatch/internal/parse.Change", p.Changes[k]))
 //@   at call (*engine.compiler).compileProgram assert [C09] the-whole-program-is-compiled: arg1 == p
 //@   ensures [C09] prog == ret("(*engine.compiler).compileProgram", 0)
+//@   ensures [C09] a-compiled-program-can-match-and-replace: prog != nil && forall j int {prog.Changes[j]} :: 0 <= j && j < len(prog.Changes) ==> prog.Changes[j] != nil && prog.Changes[j].matcher.NodeMatcher != nil && prog.Changes[j].replacer.NodeReplacer != nil
 
 // A program is compiled change by change, in the order of the patch; the compiled program holds exactly
 // the changes that compiled, in that order (a change that does not compile is reported and left out) (C09).
 //@ func (c *compiler) compileProgram(aprogram) (p)
 //@   requires aprogram != nil
+//@   requires typing: compileEnvOK()
 //@   requires typing: forall k int {aprogram.Changes[k]} :: 0 <= k && k < len(aprogram.Changes) ==> wfParsedChange(as("*github.com/uber-go/gopatch/internal/parse.Change", aprogram.Changes[k]))
 //@   at call (*engine.compiler).compileChange set compiledSeq = ite(result0 != nil, store(compiledSeq, compiledN, result0), compiledSeq)
 //@   at call (*engine.compiler).compileChange set compiledN = compiledN + ite(result0 != nil, 1, 0)
 //@   ensures p != nil
-//@   ensures [C09] the-compiled-changes-in-the-order-of-the-patch: len(p.Changes) == compiledN - old(compiledN) && forall j int {p.Changes[j]} :: 0 <= j && j < len(p.Changes) ==> p.Changes[j] == compiledSeq[old(compiledN) + j] && p.Changes[j] != nil
+//@   ensures [C09] the-compiled-changes-in-the-order-of-the-patch: len(p.Changes) == compiledN - old(compiledN) && forall j int {p.Changes[j]} :: 0 <= j && j < len(p.Changes) ==> p.Changes[j] == compiledSeq[old(compiledN) + j] && p.Changes[j] != nil && p.Changes[j].matcher.NodeMatcher != nil && p.Changes[j].replacer.NodeReplacer != nil
 //@   loop 0
 //@     invariant p.Changes.arr == 0 || fresh(p.Changes.arr)
 //@     invariant compiledN >= old(compiledN)
-//@     invariant [C09] len(p.Changes) == compiledN - old(compiledN) && forall j int {p.Changes[j]} :: 0 <= j && j < len(p.Changes) ==> p.Changes[j] == compiledSeq[old(compiledN) + j] && p.Changes[j] != nil
+//@     invariant forall k int {aprogram.Changes[k]} :: 0 <= k && k < len(aprogram.Changes) ==> wfParsedChange(as("*github.com/uber-go/gopatch/internal/parse.Change", aprogram.Changes[k]))
+//@     invariant [C09] len(p.Changes) == compiledN - old(compiledN) && forall j int {p.Changes[j]} :: 0 <= j && j < len(p.Changes) ==> p.Changes[j] == compiledSeq[old(compiledN) + j] && p.Changes[j] != nil && p.Changes[j].matcher.NodeMatcher != nil && p.Changes[j].replacer.NodeReplacer != nil
 //@     invariant forall j int {compiledSeq[j]} :: j < old(compiledN) ==> compiledSeq[j] == old(compiledSeq)[j]
 
 //@ func (c *compiler) compileChange(achange) (change)
 //@   requires achange != nil && achange.Meta != nil && achange.Patch != nil
+//@   requires typing: compileEnvOK()
+//@   requires typing: wfSide(achange.Patch.Minus) && wfSide(achange.Patch.Plus)
+//@   at call (*engine.matcherCompiler).compileFile assert [C10] the-minus-side-is-the-pattern: arg1 == achange.Patch.Minus
+//@   at call (*engine.replacerCompiler).compileFile assert [C03,C11] the-plus-side-is-the-replacement: arg1 == achange.Patch.Plus
+//@   ensures [C09] a-compiled-change-can-match-and-replace: change != nil ==> change.matcher.NodeMatcher != nil && change.replacer.NodeReplacer != nil
+//@   ensures [C09,C13] name-and-description-are-carried-along: change != nil ==> change.Name == achange.Name && change.Comments == achange.Comments
 //@   requires typing: forall i int {achange.Meta.Vars[i]} :: 0 <= i && i < len(achange.Meta.Vars) ==> achange.Meta.Vars[i] != nil && achange.Meta.Vars[i].Type != nil && forall j int {achange.Meta.Vars[i].Names[j]} :: 0 <= j && j < len(achange.Meta.Vars[i].Names) ==> achange.Meta.Vars[i].Names[j] != nil
 //@   assigns c.errors, elems(c.errors), metaErrors, allof("E.token_Pos"), allof("E.main_sourcePath"), allof("MH.Int.Int"), allof("MV.Int.Int"), allof("MH.Int.S_token_Position"), allof("MV.Int.S_token_Position")
 
@@ -1028,9 +1042,52 @@ package engine
 //@   assigns allof("MH.Int.S_token_Position"), allof("MV.Int.S_token_Position")
 //@   ensures [C04,C13] res == posLE(posOfFn(getPosition, lhs[i]), rpos)
 
+// One side of a change as a whole (C10, C11): the guards are the side's own package clause and imports, each
+// import compiled in the order written; the code pattern is the side's single node, a statement list
+// being framed as such.
 //@ func (c *matcherCompiler) compileFile(file) (m)
-//@   trusted compile-side summary
+//@   requires typing: compileEnvOK()
+//@   requires file != nil
+//@   requires typing: file.Node.val != nil && (file.Node.typ == dyn("*github.com/uber-go/gopatch/internal/pgo.Expr") || file.Node.typ == dyn("*github.com/uber-go/gopatch/internal/pgo.GenDecl") || file.Node.typ == dyn("*github.com/uber-go/gopatch/internal/pgo.FuncDecl") || file.Node.typ == dyn("*github.com/uber-go/gopatch/internal/pgo.StmtList"))
+//@   requires typing: importsTyped(file.Imports)
 //@   assigns c.dots, elems(c.dots)
+//@   ensures c.dots.arr == old(c.dots.arr) || fresh(c.dots.arr)
+//@   ensures [C10] the-package-guard-is-the-package-clause-as-written: m.Package == file.Package
+//@   ensures [C10] one-import-guard-per-import-as-written: len(m.Imports.Imports) == len(file.Imports)
+//@   ensures m.NodeMatcher != nil
+//@   at call (*engine.matcherCompiler).compileImports assert [C10] arg1 == file.Imports
+//@ func (c *matcherCompiler) compileImports(imps) (ms)
+//@   requires typing: compileEnvOK()
+//@   requires typing: importsTyped(imps)
+//@   unfold importsTyped(imps) == forall k int {imps[k]} :: 0 <= k && k < len(imps) ==> imps[k] != nil && imps[k].Path != nil && unquoteOK(imps[k].Path.Value)
+//@   assigns c.dots, elems(c.dots)
+//@   ensures c.dots.arr == old(c.dots.arr) || fresh(c.dots.arr)
+//@   ensures [C10] one-guard-per-import-in-order: len(ms.Imports) == len(imps)
+//@   at call (*engine.matcherCompiler).compileImport assert [C10] arg1 == imp
+//@   loop 0
+//@     invariant len(ms) == #k
+//@     invariant c.dots.arr == old(c.dots.arr) || fresh(c.dots.arr)
+//@     invariant ms.arr == 0 || fresh(ms.arr)
 //@ func (c *replacerCompiler) compileFile(file) (m)
-//@   trusted compile-side summary
+//@   requires typing: compileEnvOK()
+//@   requires file != nil
+//@   requires typing: file.Node.val != nil && (file.Node.typ == dyn("*github.com/uber-go/gopatch/internal/pgo.Expr") || file.Node.typ == dyn("*github.com/uber-go/gopatch/internal/pgo.GenDecl") || file.Node.typ == dyn("*github.com/uber-go/gopatch/internal/pgo.FuncDecl") || file.Node.typ == dyn("*github.com/uber-go/gopatch/internal/pgo.StmtList"))
+//@   requires typing: importsTyped(file.Imports)
 //@   assigns c.dots, elems(c.dots)
+//@   ensures c.dots.arr == old(c.dots.arr) || fresh(c.dots.arr)
+//@   ensures [C11] the-package-as-written: m.Package == file.Package && m.Fset == c.fset
+//@   ensures [C11] one-import-per-plus-import: len(m.Imports.Imports) == len(file.Imports) && m.Imports.Fset == c.fset
+//@   ensures m.NodeReplacer != nil
+//@   at call (*engine.replacerCompiler).compileImports assert [C11] arg1 == file.Imports
+//@ func (c *replacerCompiler) compileImports(imps) (rs)
+//@   requires typing: compileEnvOK()
+//@   requires typing: importsTyped(imps)
+//@   unfold importsTyped(imps) == forall k int {imps[k]} :: 0 <= k && k < len(imps) ==> imps[k] != nil && imps[k].Path != nil && unquoteOK(imps[k].Path.Value)
+//@   assigns c.dots, elems(c.dots)
+//@   ensures c.dots.arr == old(c.dots.arr) || fresh(c.dots.arr)
+//@   ensures [C11] one-replacer-per-import-in-order: len(rs.Imports) == len(imps) && rs.Fset == c.fset
+//@   at call (*engine.replacerCompiler).compileImport assert [C11] arg1 == imp
+//@   loop 0
+//@     invariant len(rs) == #k
+//@     invariant c.dots.arr == old(c.dots.arr) || fresh(c.dots.arr)
+//@     invariant rs.arr == 0 || fresh(rs.arr)
